@@ -388,12 +388,19 @@ func init() {
 				}
 			}
 			var outs []string
+			cfgUpdates := 0
 			for _, op := range ops {
 				switch op[0] {
 				case "cfg":
 					en := op[1] == "1"
 					thr, _ := strconv.Atoi(op[2])
-					env.SetCompression(en, uint32(thr))
+					// alternately in place and as a configuration update from discovery does it (a new section object)
+					cfgUpdates++
+					if cfgUpdates%2 == 0 {
+						env.SetCompression(en, uint32(thr))
+					} else {
+						env.UpdateCompression(en, uint32(thr))
+					}
 					outs = append(outs, "cfg")
 				case "w", "r":
 					pendingMoved = op[0] == "w" && op[1] == "1"
